@@ -602,55 +602,83 @@ def judge(case):
     return fails, stats
 
 
+def decode_type(genome):
+    """genome (list of small ints) -> type tree with (anon_flag, spec) members.  Drawing a flat list
+    and decoding it here is ~20x cheaper than a recursive Hypothesis strategy; minimisation is done
+    on the decoded JSON tree (Check.shrink), not on the genome."""
+    it = iter(genome)
+
+    def g():
+        return next(it, 0)
+    budget = [12]
+
+    def leaf(sel):
+        sel %= 6
+        if sel <= 2:
+            return ["num", NUMFMT[g() % len(NUMFMT)]]
+        if sel == 3:
+            t = g()
+            tgt = ["num", NUMFMT[g() % len(NUMFMT)]] if t & 1 else ["str", ENCODINGS[(t >> 1) % len(ENCODINGS)]]
+            return ["ptr", PTRFMT[g() % len(PTRFMT)], tgt]
+        fmt = UNSIGNED[g() % len(UNSIGNED)]
+        total = 8 * struct.calcsize(fmt)
+        out = []
+        used = 0
+        for _ in range(1 + g() % 6):
+            w = 1 + g() % 13
+            if used + w > total:
+                break
+            out.append(["", w])
+            used += w
+        return ["bits", fmt, out or [["", 1]]]
+
+    def members(depth):
+        return [[g() % 4 == 0, node(depth + 1)] for _ in range(1 + g() % 4)]
+
+    def node(depth):
+        c = g()
+        budget[0] -= 1
+        k = c % 10
+        if depth >= 4 or budget[0] <= 0 or k < (3 if depth <= 1 else 5):
+            return leaf(c // 10)
+        if k < 5:
+            k = 5 + c // 10 % 5
+        if k in (5, 6):
+            return ["struct", members(depth)]
+        if k == 7:
+            return ["union", members(depth)]
+        elem = node(depth + 1)
+        return ["array", elem, 1 + g() % 4]
+    top = "struct" if g() & 1 else "union"
+    return [top, members(0)]
+
+
 def strategies():
     from hypothesis import strategies as st
-    num = st.tuples(st.just("num"), st.sampled_from(NUMFMT))
-    ptr = st.tuples(st.just("ptr"), st.sampled_from(PTRFMT),
-                    st.one_of(num, st.tuples(st.just("str"), st.sampled_from(ENCODINGS))))
-
-    def bits():
-        def mk(fmt, widths):
-            total = 8 * struct.calcsize(fmt)
-            out = []
-            used = 0
-            for w in widths:
-                w = 1 + (w % 13)
-                if used + w > total:
-                    break
-                out.append(["", w])
-                used += w
-            if not out:
-                out = [["", 1]]
-            return ["bits", fmt, out]
-        return st.builds(mk, st.sampled_from(UNSIGNED), st.lists(st.integers(0, 12), min_size=1, max_size=6))
-
-    leaf = st.one_of(num, num, ptr, bits())
-
-    def member_list(children):
-        return st.lists(st.tuples(st.booleans(), children), min_size=1, max_size=4)
-
-    def extend(children):
-        return st.one_of(
-            st.tuples(st.just("struct"), member_list(children)),
-            st.tuples(st.just("union"), member_list(children)),
-            st.tuples(st.just("array"), children, st.integers(1, 4)),
-        )
-    tree = st.recursive(leaf, extend, max_leaves=10)
-    top = st.one_of(st.tuples(st.just("struct"), member_list(tree)), st.tuples(st.just("union"), member_list(tree)))
+    byte = st.integers(0, 255)
+    genome = st.lists(byte, min_size=6, max_size=70)
     seed = st.integers(0, (1 << 64) - 1)
-    small = st.integers(0, 63)
-    op = st.one_of(
-        st.tuples(st.just("w"), small, seed, st.integers(0, 7)),
-        st.tuples(st.just("w"), small, seed, st.integers(0, 7)),
-        st.tuples(st.just("w"), small, seed, st.integers(0, 7)),
-        st.tuples(st.just("wa"), small, seed, st.integers(0, 1)),
-        st.tuples(st.just("oob"), small, small, seed),
-        st.tuples(st.just("sl"), small, small, small, seed),
-        st.tuples(st.just("str"), st.integers(0, 4), small, seed, st.integers(0, 11)),
-        st.tuples(st.just("wd"), small, small, seed, st.integers(0, 9)),
-    )
-    case = st.tuples(top, st.integers(0, 7), st.lists(op, min_size=1, max_size=10))
-    return case
+    op = st.tuples(byte, byte, byte, byte, seed)
+    return st.tuples(genome, st.integers(0, 7), st.lists(op, min_size=1, max_size=10))
+
+
+OPKINDS = ["w", "w", "w", "w", "wa", "oob", "sl", "str", "wd"]
+
+
+def decode_op(t):
+    k, x, y, z, seed = t
+    name = OPKINDS[k % len(OPKINDS)]
+    if name == "w":
+        return ["w", x, seed, y & 7]
+    if name == "wa":
+        return ["wa", x, seed, y & 1]
+    if name == "oob":
+        return ["oob", x, y, seed]
+    if name == "sl":
+        return ["sl", x, y, z, seed]
+    if name == "str":
+        return ["str", x % 5, y & 63, seed, z % 12]
+    return ["wd", x, y & 63, seed, z % 10]
 
 
 def name_members(spec, counter):
@@ -681,8 +709,8 @@ def name_members(spec, counter):
 
 
 def to_case(t):
-    top, delta, ops = t
-    return {"spec": name_members(top, [0]), "delta": delta, "ops": [list(o) for o in ops]}
+    genome, delta, ops = t
+    return {"spec": name_members(decode_type(genome), [0]), "delta": delta, "ops": [decode_op(o) for o in ops]}
 
 
 class C34(Check):
@@ -692,7 +720,8 @@ class C34(Check):
     technique = "random type definitions and writes vs. an independent C-layout byte model"
     level_text = ("random nested type definitions and field writes compared with an independent layout/encoding "
                   "model of the backing page; no claim beyond the generated types and values")
-    rule = ("Hypothesis: type tree (Struct/Union/Array/BitField/Ptr/Num, named and anonymous members, <=10 leaves, "
+    rule = ("Hypothesis list of small ints decoded into a type tree (Struct/Union/Array/BitField/Ptr/Num, named and "
+            "anonymous members, depth <= 5, <= 12 nodes drawn, "
             "27 number formats incl. signed, float, both byte orders), view address offset 0..7, 1..10 writes "
             "(leaf write by set_field / attribute / flattened anonymous name / Ptr.val, list-to-array, struct copy, "
             "whole bit-field, slice, out-of-range index, Str of the five documented encodings, write through "
@@ -711,7 +740,7 @@ class C34(Check):
 
     def run_shard(self, tier, seed, shard, nshards):
         res = ShardResult()
-        n = 700 if tier == "quick" else 12000
+        n = 1500 if tier == "quick" else 25000
 
         def one(t):
             case = to_case(t)
